@@ -245,6 +245,15 @@ func (k *Kernel) poke() {
 func (k *Kernel) Park(ev *Event, eligible func() bool) {
 	if ev.key == "" {
 		ev.key = ev.Kind + "|" + k.rel(ev.Site) + "|" + k.rel(ev.ID) + "|" + strconv.FormatUint(ev.Actor, 16)
+		// two harness tasks running the same code reach the same seam with the same stack: the task's name
+		// keeps their events apart (equal keys would be ordered by arrival, which no seed decides)
+		g := ev.G
+		if g == 0 {
+			g = goid()
+		}
+		if tag, ok := taskTags.Load(g); ok {
+			ev.key += "|" + tag.(string)
+		}
 	}
 	raceDisable()
 	ev.PSeq = int(k.seqA.Load())
@@ -640,10 +649,16 @@ func (k *Kernel) ParkedKeys() []string {
 // that its first step is a scheduling decision like any other.
 func (k *Kernel) Go(name string, fn func()) {
 	go func() {
+		g := goid()
+		taskTags.Store(g, name)
+		defer taskTags.Delete(g)
 		k.Park(NewTaskEvent("task", name), nil)
 		fn()
 	}()
 }
+
+// taskTags: goroutine id -> name of the harness task running on it (see Park).
+var taskTags sync.Map
 
 // At runs fn as an environment task at virtual time t (relative to kernel start).
 func (k *Kernel) At(t time.Duration, name string, fn func()) {
